@@ -193,13 +193,18 @@ def card_fn(ksort):
 def card_of(interp, st, m):
     """number of keys of a finite map: uninterpreted except card >= 0, card == 0 iff empty,
     card == 1 iff exactly one key (the instances used by the code under contract)"""
-    c = card_fn(m.ksort)(m.dom)
-    k = z3.Const("k!card", m.ksort)
+    from . import spec as _spec
+    dom = _spec.canon_array(st, m.dom)      # a lambda inside an uninterpreted function blocks counter-models
+    c = card_fn(m.ksort)(dom)
     j = z3.Const("j!card", m.ksort)
+    sel = lambda x: _spec.array_at(st, dom, x)
+    w0, w1, w2 = (st.fresh("card_witness%d" % i, m.ksort) for i in range(3))
     st.assume(c >= 0)
-    st.assume((c == 0) == z3.Not(z3.Exists([k], z3.Select(m.dom, k))))
-    st.assume((c == 1) == z3.Exists([k], z3.And(z3.Select(m.dom, k),
-                                                z3.ForAll([j], z3.Implies(z3.Select(m.dom, j), j == k)))))
+    # skolemised characterisation: existential parts by witnesses (quantifier-free), universal parts quantified
+    st.assume(z3.Implies(c == 0, z3.ForAll([j], z3.Not(z3.Select(dom, j)))))
+    st.assume(z3.Implies(c != 0, sel(w0)))
+    st.assume(z3.Implies(c == 1, z3.ForAll([j], z3.Implies(z3.Select(dom, j), j == w0))))
+    st.assume(z3.Implies(c >= 2, z3.And(sel(w1), sel(w2), w1 != w2)))
     interp.assumed.add("A3 len(dict): cardinality of the key set (only ==0 and ==1 characterised)")
     return c
 
